@@ -36,6 +36,7 @@ def num_equal(a, b, ty):
 
 
 class Prop(BaseProp):
+    replay_whole = True
     coq_targets = ['ND/Proofs/C07_proofs.vo', 'ND/Proofs/C07_inst.vo']
     n_quick, n_thorough = 700, 12000
 
@@ -59,6 +60,8 @@ class Prop(BaseProp):
             aux = []
             if op in SC:
                 aux = [vlib.f2b(rng.choice([2.0, 0.5, -1.5, 3.0, 2.5, 1.0, 0.0]) if op != 'log' else rng.choice([2.0, 10.0, 0.5]))]
+                if op.startswith('div') and aux[0] == vlib.f2b(0.0):
+                    aux = [vlib.f2b(4.0)]      # x / 0 is outside the domain: an explicit zero part becomes 0/0 = NaN under IEEE, an absent one stays absent
             if op == 'powi':
                 aux = [rng.choice([0, 1, 2, 3, 4, -1, -2, 5])]
             a = [genvals.gen_value(rng, ty, genvals.leaf_rand, re_leaf=dom) for _ in range(nargs)]
